@@ -158,6 +158,7 @@ Proof.
             | solve [intros ? ? E; inversion E; subst; eapply files_ok_content; [exact HF | eassumption]]
             | solve [intros ? ? E; inversion E; subst; eapply Hfb; reflexivity]
             | solve [intros ? ? E; eapply Hfb; congruence]
+            | solve [intros ? ? E; rewrite Heqp in E; inversion E; subst; eapply Hfb; reflexivity]
             | solve [intros ? E; inversion E; subst; eapply unzip_prov; eassumption]
             | solve [eapply files_ok_content; [exact HF | eassumption]]
             | solve [intros [E|[E1 E2]]; try congruence; eauto]
